@@ -21,7 +21,8 @@ R = Registry(
         "pre-state computed from the same atoms (attach: key decides detached/transient; detach: the four-way "
         "choice is a function of (to_transient, _deleted, key); flush/rollback/load sites are control-dependent "
         "on the state change they announce); key/session_id/_deleted are written only by the enumerated owners; the exits "
-        "of the session (detach family, make_transient*) re-establish all three atoms together (`_deleted` only with a key)."
+        "of the session (detach family, make_transient*) re-establish all three atoms together (`_deleted` only with a key); "
+        "expunge_all() detaches the states of every collection the one-object form _expunge_states knows an attached state can live in."
     ),
     not_decided="that every API operation moves objects along the documented transition relation for all histories.",
 )
